@@ -97,7 +97,7 @@ func (r *Realm) ErrName(v Value) string {
 // [[OwnPropertyKeys]] order), other own string keys (sorted), and - at depth 0 - every universe index that is not
 // own but visible through the prototype chain, with the value a read yields.
 func (r *Realm) Dump(o *Obj, d int) string {
-	ll := len(r.Log)
+	ll, lln := len(r.Log), r.LogN
 	var b strings.Builder
 	if r.IsArray(o) {
 		b.WriteString("[A")
@@ -135,7 +135,12 @@ func (r *Realm) Dump(o *Obj, d int) string {
 	}
 	sort.Strings(sk)
 	b.WriteString(" K=")
-	for _, k := range ik {
+	for i, nk := 0, len(ik); i < nk; i++ {
+		if nk > 64 && i == 32 {
+			b.WriteString("..(" + strconv.Itoa(nk) + ")..;")
+			i = nk - 32
+		}
+		k := ik[i]
 		b.WriteString(k + ":" + r.renderProp(r.GetOwnProperty(o, k), d) + ";")
 	}
 	b.WriteString(" S=")
@@ -163,14 +168,14 @@ func (r *Realm) Dump(o *Obj, d int) string {
 			}()
 		}
 	}
-	r.Log = r.Log[:ll]
+	r.Log, r.LogN = r.Log[:ll], lln
 	b.WriteString("]")
 	return b.String()
 }
 
 // Try runs f as the prelude's T(f): "ok:<R(result)> |<log>" or "throw:<EN(e)> |<log>". The result value is kept in Res.
 func (r *Realm) Try(f func() Value) (out string) {
-	r.Log = r.Log[:0]
+	r.Log, r.LogN = r.Log[:0], 0
 	r.Res = Undefined
 	defer func() {
 		if x := recover(); x != nil {
@@ -179,7 +184,7 @@ func (r *Realm) Try(f func() Value) (out string) {
 				panic(x)
 			}
 			r.Res = Undefined
-			out = "throw:" + r.ErrName(t.V) + " |" + strings.Join(r.Log, ",")
+			out = "throw:" + r.ErrName(t.V) + " |" + r.LogText()
 		}
 	}()
 	v := f()
@@ -187,7 +192,7 @@ func (r *Realm) Try(f func() Value) (out string) {
 		v = Undefined
 	}
 	r.Res = v
-	return "ok:" + r.Render(v, 0) + " |" + strings.Join(r.Log, ",")
+	return "ok:" + r.Render(v, 0) + " |" + r.LogText()
 }
 
 // PresentValues is the twin of SV(x,n).
@@ -200,4 +205,26 @@ func (r *Realm) PresentValues(o *Obj, n float64) []string {
 		}
 	}
 	return out
+}
+
+// LogText is the twin of LOGTEXT(): the first 300 entries and the count of the rest.
+func (r *Realm) LogText() string {
+	s := strings.Join(r.Log, ",")
+	if r.LogN > 300 {
+		s += ",+" + strconv.Itoa(r.LogN-300)
+	}
+	return s
+}
+
+// Exec runs f like Try but renders nothing (used by generators that only need the state change).
+func (r *Realm) Exec(f func() Value) {
+	r.Log, r.LogN = r.Log[:0], 0
+	defer func() {
+		if x := recover(); x != nil {
+			if _, ok := x.(*Throw); !ok {
+				panic(x)
+			}
+		}
+	}()
+	f()
 }
